@@ -43,6 +43,9 @@ package gostatsd
 //@   ensures  old(hasC(mm, metricName, tagsKey)) ==> mm.Counters[metricName][tagsKey].Source == old(mm.Counters[metricName][tagsKey].Source) && mm.Counters[metricName][tagsKey].Tags == old(mm.Counters[metricName][tagsKey].Tags)
 //@   ensures  !old(hasC(mm, metricName, tagsKey)) ==> mm.Counters[metricName][tagsKey] == counterFrom
 //@   ensures  forall n string, t string :: (n != metricName || t != tagsKey) ==> hasC(mm, n, t) == old(hasC(mm, n, t)) && (hasC(mm, n, t) ==> mm.Counters[n][t] == old(mm.Counters[n][t]))
+//@   ensures  [outer] forall n string :: n != metricName ==> (n in mm.Counters) == old(n in mm.Counters) && mm.Counters[n] == old(mm.Counters[n])
+//@   ensures  [outer] old(metricName in mm.Counters) ==> mm.Counters[metricName] == old(mm.Counters[metricName])
+//@   ensures  [outer] !old(metricName in mm.Counters) ==> fresh(mm.Counters[metricName])
 //@   modifies mm.Counters[*], mm.Counters[metricName][*]
 
 // ---- percentiles -------------------------------------------------------------------------------------
@@ -63,6 +66,9 @@ package gostatsd
 //@   ensures  old(hasG(mm, metricName, tagsKey)) ==> mm.Gauges[metricName][tagsKey].Source == old(mm.Gauges[metricName][tagsKey].Source) && mm.Gauges[metricName][tagsKey].Tags == old(mm.Gauges[metricName][tagsKey].Tags)
 //@   ensures  !old(hasG(mm, metricName, tagsKey)) ==> mm.Gauges[metricName][tagsKey] == gaugeFrom
 //@   ensures  forall n string, t string :: (n != metricName || t != tagsKey) ==> hasG(mm, n, t) == old(hasG(mm, n, t)) && (hasG(mm, n, t) ==> mm.Gauges[n][t] == old(mm.Gauges[n][t]))
+//@   ensures  [outer] forall n string :: n != metricName ==> (n in mm.Gauges) == old(n in mm.Gauges) && mm.Gauges[n] == old(mm.Gauges[n])
+//@   ensures  [outer] old(metricName in mm.Gauges) ==> mm.Gauges[metricName] == old(mm.Gauges[metricName])
+//@   ensures  [outer] !old(metricName in mm.Gauges) ==> fresh(mm.Gauges[metricName])
 //@   modifies mm.Gauges[*], mm.Gauges[metricName][*]
 
 // timers: values are concatenated (multiset union up to order), sampled counts add
@@ -79,13 +85,16 @@ package gostatsd
 //@   ensures  old(hasT(mm, metricName, tagsKey)) ==> mm.Timers[metricName][tagsKey].Source == old(mm.Timers[metricName][tagsKey].Source) && mm.Timers[metricName][tagsKey].Tags == old(mm.Timers[metricName][tagsKey].Tags)
 //@   ensures  !old(hasT(mm, metricName, tagsKey)) ==> mm.Timers[metricName][tagsKey] == timerFrom
 //@   ensures  forall n string, t string :: (n != metricName || t != tagsKey) ==> hasT(mm, n, t) == old(hasT(mm, n, t)) && (hasT(mm, n, t) ==> mm.Timers[n][t] == old(mm.Timers[n][t]))
+//@   ensures  [outer] forall n string :: n != metricName ==> (n in mm.Timers) == old(n in mm.Timers) && mm.Timers[n] == old(mm.Timers[n])
+//@   ensures  [outer] old(metricName in mm.Timers) ==> mm.Timers[metricName] == old(mm.Timers[metricName])
+//@   ensures  [outer] !old(metricName in mm.Timers) ==> fresh(mm.Timers[metricName])
 //@   modifies mm.Timers[*], mm.Timers[metricName][*], allElems(float64)
 
 // sets unite; a set in a map always has an allocated member map
 //@ pred setsOK(mm *MetricMap) := forall n string, t string :: hasS(mm, n, t) ==> mm.Sets[n][t].Values != nil
 //@ func (*MetricMap).MergeSet
 //@   requires mm != nil && wfdSets(mm.Sets) && setsOK(mm) && setFrom.Values != nil
-//@   ensures  wfdSets(mm.Sets) && mm.Sets == old(mm.Sets)
+//@   ensures  wfdSets(mm.Sets) && mm.Sets == old(mm.Sets) && setsOK(mm)
 //@   ensures  hasS(mm, metricName, tagsKey)
 //@   ensures  old(hasS(mm, metricName, tagsKey)) ==> mm.Sets[metricName][tagsKey].Timestamp == imax(old(mm.Sets[metricName][tagsKey].Timestamp), setFrom.Timestamp)
 //@   ensures  old(hasS(mm, metricName, tagsKey)) ==> mm.Sets[metricName][tagsKey].Values == old(mm.Sets[metricName][tagsKey].Values)
@@ -94,6 +103,9 @@ package gostatsd
 //@   ensures  forall n string, t string :: (n != metricName || t != tagsKey) ==> hasS(mm, n, t) == old(hasS(mm, n, t)) && (hasS(mm, n, t) ==> mm.Sets[n][t] == old(mm.Sets[n][t]))
 //@   loop 1 invariant forall x string :: (x in setInto.Values) == (old(x in mm.Sets[metricName][tagsKey].Values) || (visited(1)[x] && old(x in setFrom.Values)))
 //@   loop 1 invariant setFrom.Values == setInto.Values || (forall x string :: (x in setFrom.Values) == old(x in setFrom.Values))
+//@   ensures  [outer] forall n string :: n != metricName ==> (n in mm.Sets) == old(n in mm.Sets) && mm.Sets[n] == old(mm.Sets[n])
+//@   ensures  [outer] old(metricName in mm.Sets) ==> mm.Sets[metricName] == old(mm.Sets[metricName])
+//@   ensures  [outer] !old(metricName in mm.Sets) ==> fresh(mm.Sets[metricName])
 //@   modifies mm.Sets[*], mm.Sets[metricName][*], mm.Sets[metricName][tagsKey].Values[*]
 
 // ---- receiving single datapoints ---------------------------------------------------------------------
@@ -264,3 +276,64 @@ package gostatsd
 //@   loop 1 invariant forall j int, k int :: 0 <= j && j < i && 0 <= k && k < i && j != k ==> maps[j] != maps[k] && maps[j].Counters != maps[k].Counters && maps[j].Gauges != maps[k].Gauges && maps[j].Timers != maps[k].Timers && maps[j].Sets != maps[k].Sets
 //@   loop 1 invariant 0 <= i && i <= count && len(maps) == count
 //@   loop 1 invariant forall j int :: 0 <= j && j < i ==> maps[j] != nil && wfdCounters(maps[j].Counters) && wfdGauges(maps[j].Gauges) && wfdTimers(maps[j].Timers) && wfdSets(maps[j].Sets)
+
+// ---- merging whole maps ----------------------------------------------------------------------------------------
+// disjoint*: two maps share neither their outer map nor any inner map, so that later updates of one
+// never show through the other (a batch may be merged into several destinations)
+//@ pred disjointC(a Counters, b Counters) := a != b && (forall n1 string, n2 string :: n1 in a && n2 in b ==> a[n1] != b[n2])
+//@ pred disjointG(a Gauges, b Gauges) := a != b && (forall n1 string, n2 string :: n1 in a && n2 in b ==> a[n1] != b[n2])
+//@ pred disjointT(a Timers, b Timers) := a != b && (forall n1 string, n2 string :: n1 in a && n2 in b ==> a[n1] != b[n2])
+//@ pred disjointS(a Sets, b Sets) := a != b && (forall n1 string, n2 string :: n1 in a && n2 in b ==> a[n1] != b[n2])
+//@ pred allocC(b Counters) := b == nil || (allocated(b) && (forall n string :: n in b ==> allocated(b[n])))
+//@ pred allocG(b Gauges) := b == nil || (allocated(b) && (forall n string :: n in b ==> allocated(b[n])))
+//@ pred allocT(b Timers) := b == nil || (allocated(b) && (forall n string :: n in b ==> allocated(b[n])))
+//@ pred allocS(b Sets) := b == nil || (allocated(b) && (forall n string :: n in b ==> allocated(b[n])))
+
+//@ func (*MetricMap).MergeCounter$bound
+//@   iter invariant recv.Counters == old(recv.Counters) && (forall n string :: n in recv.Counters ==> (old(n in recv.Counters) && recv.Counters[n] == old(recv.Counters[n])) || fresh(recv.Counters[n]))
+//@   iter invariant recv != nil && wfdCounters(recv.Counters) && disjointC(recv.Counters, iter) && allocC(iter)
+//@ func (*MetricMap).MergeGauge$bound
+//@   iter invariant recv.Gauges == old(recv.Gauges) && (forall n string :: n in recv.Gauges ==> (old(n in recv.Gauges) && recv.Gauges[n] == old(recv.Gauges[n])) || fresh(recv.Gauges[n]))
+//@   iter invariant recv != nil && wfdGauges(recv.Gauges) && disjointG(recv.Gauges, iter) && allocG(iter)
+//@ func (*MetricMap).MergeTimer$bound
+//@   iter invariant recv.Timers == old(recv.Timers) && (forall n string :: n in recv.Timers ==> (old(n in recv.Timers) && recv.Timers[n] == old(recv.Timers[n])) || fresh(recv.Timers[n]))
+//@   iter invariant recv != nil && wfdTimers(recv.Timers) && disjointT(recv.Timers, iter) && allocT(iter)
+//@ func (*MetricMap).MergeSet$bound
+//@   iter invariant recv.Sets == old(recv.Sets) && (forall n string :: n in recv.Sets ==> (old(n in recv.Sets) && recv.Sets[n] == old(recv.Sets[n])) || fresh(recv.Sets[n]))
+//@   iter invariant recv != nil && wfdSets(recv.Sets) && setsOK(recv) && disjointS(recv.Sets, iter) && allocS(iter)
+//@   iter invariant forall n string :: (n in iter) == old(n in iter) && iter[n] == old(iter[n])
+//@   iter invariant forall n string, t string :: n in iter ==> (t in iter[n]) == old(t in iter[n]) && iter[n][t] == old(iter[n][t])
+//@   iter inner invariant iterKey in iter && iter[iterKey] == iterInner
+
+// Merge folds every series of mmFrom into mm through the four merge functions; the two maps stay
+// disjoint (no inner map of the source ends up inside the destination).
+//@ func (*MetricMap).Merge
+//@   floats real
+//@   requires mm != nil && mmFrom != nil && wfdCounters(mm.Counters) && wfdGauges(mm.Gauges) && wfdTimers(mm.Timers) && wfdSets(mm.Sets) && setsOK(mm) && setsOK(mmFrom)
+//@   requires disjointC(mm.Counters, mmFrom.Counters) && disjointG(mm.Gauges, mmFrom.Gauges) && disjointT(mm.Timers, mmFrom.Timers) && disjointS(mm.Sets, mmFrom.Sets)
+//@   requires allocC(mmFrom.Counters) && allocG(mmFrom.Gauges) && allocT(mmFrom.Timers) && allocS(mmFrom.Sets)
+//@   ensures  wfdCounters(mm.Counters) && wfdGauges(mm.Gauges) && wfdTimers(mm.Timers) && wfdSets(mm.Sets) && setsOK(mm)
+//@   ensures  [freshinner] mm.Counters == old(mm.Counters) && (forall n string :: n in mm.Counters ==> (old(n in mm.Counters) && mm.Counters[n] == old(mm.Counters[n])) || fresh(mm.Counters[n]))
+//@   ensures  [freshinner] mm.Gauges == old(mm.Gauges) && (forall n string :: n in mm.Gauges ==> (old(n in mm.Gauges) && mm.Gauges[n] == old(mm.Gauges[n])) || fresh(mm.Gauges[n]))
+//@   ensures  [freshinner] mm.Timers == old(mm.Timers) && (forall n string :: n in mm.Timers ==> (old(n in mm.Timers) && mm.Timers[n] == old(mm.Timers[n])) || fresh(mm.Timers[n]))
+//@   ensures  [freshinner] mm.Sets == old(mm.Sets) && (forall n string :: n in mm.Sets ==> (old(n in mm.Sets) && mm.Sets[n] == old(mm.Sets[n])) || fresh(mm.Sets[n]))
+//@   ensures  [disjoint] disjointC(mm.Counters, mmFrom.Counters) && disjointG(mm.Gauges, mmFrom.Gauges) && disjointT(mm.Timers, mmFrom.Timers) && disjointS(mm.Sets, mmFrom.Sets)
+//@   modifies mm.Counters[*], mm.Counters[*][*], mm.Gauges[*], mm.Gauges[*][*], mm.Timers[*], mm.Timers[*][*], mm.Sets[*], mm.Sets[*][*], allElems(float64), allMapsLike(Set.Values)
+
+// mergeable(m): what Merge needs from a source map
+//@ pred mergeable(m *MetricMap) := m != nil && allocated(m) && setsOK(m) && allocC(m.Counters) && allocG(m.Gauges) && allocT(m.Timers) && allocS(m.Sets)
+
+// MergeMaps folds the drained consolidator slots into one new map.
+//@ func MergeMaps
+//@   floats real
+//@   requires forall i int :: 0 <= i && i < len(mms) ==> mergeable(mms[i])
+//@   ensures  (result == nil) == (len(mms) == 0)
+//@   ensures  result != nil ==> fresh(result) && wfdCounters(result.Counters) && wfdGauges(result.Gauges) && wfdTimers(result.Timers) && wfdSets(result.Sets) && setsOK(result)
+//@   loop 1 invariant mm != nil && fresh(mm) && fresh(mm.Counters) && fresh(mm.Gauges) && fresh(mm.Timers) && fresh(mm.Sets)
+//@   loop 1 invariant wfdCounters(mm.Counters) && wfdGauges(mm.Gauges) && wfdTimers(mm.Timers) && wfdSets(mm.Sets) && setsOK(mm)
+//@   loop 1 invariant (forall n string :: n in mm.Counters ==> fresh(mm.Counters[n])) && (forall n string :: n in mm.Gauges ==> fresh(mm.Gauges[n])) && (forall n string :: n in mm.Timers ==> fresh(mm.Timers[n])) && (forall n string :: n in mm.Sets ==> fresh(mm.Sets[n]))
+//@   loop 1 invariant forall i int :: 0 <= i && i < len(mms) ==> mergeable(mms[i])
+//@   loop 1 invariant forall i int :: 0 <= i && i < len(mms) ==> mms[i] == old(mms[i]) && mms[i].Counters == old(mms[i].Counters) && mms[i].Gauges == old(mms[i].Gauges) && mms[i].Timers == old(mms[i].Timers) && mms[i].Sets == old(mms[i].Sets)
+//@   loop 1 invariant forall i int, n string :: 0 <= i && i < len(mms) ==> (n in mms[i].Counters) == old(n in mms[i].Counters) && mms[i].Counters[n] == old(mms[i].Counters[n]) && (n in mms[i].Gauges) == old(n in mms[i].Gauges) && mms[i].Gauges[n] == old(mms[i].Gauges[n])
+//@   loop 1 invariant forall i int, n string :: 0 <= i && i < len(mms) ==> (n in mms[i].Timers) == old(n in mms[i].Timers) && mms[i].Timers[n] == old(mms[i].Timers[n]) && (n in mms[i].Sets) == old(n in mms[i].Sets) && mms[i].Sets[n] == old(mms[i].Sets[n])
+//@   modifies everything
